@@ -336,6 +336,7 @@ type replayCase struct {
 	Prefix  string    `json:"prefix"`
 	Payload []byte    `json:"payload"`
 	Spec    *pageSpec `json:"spec"`
+	Format  *fmtSpec  `json:"format"`
 }
 
 func runStored(w *gen.Writer, raw json.RawMessage, class string) {
@@ -354,6 +355,8 @@ func runStored(w *gen.Writer, raw json.RawMessage, class string) {
 		runPage(w, *rc.Spec, class)
 	case "badtemplate":
 		runBadTemplate(w, string(rc.Payload), class)
+	case "format":
+		runFormat(w, *rc.Format, class)
 	default:
 		panic("stored case without a replayable op (end-to-end cases are re-generated from the seed)")
 	}
@@ -420,6 +423,10 @@ func main() {
 		runBadTemplate(w, t, "bad-template")
 	}
 	_ = query.Parse
+	for i, n := 0, f.N(1500, 60000); i < n; i++ {
+		fs, class := genFormat(r)
+		runFormat(w, fs, class)
+	}
 	lap("pages")
 
 	// C. real shards
